@@ -2,6 +2,7 @@ package main
 
 import (
 	"go/ast"
+	"go/constant"
 	"go/token"
 	"go/types"
 	"strings"
@@ -33,6 +34,66 @@ func checkC17(c *Check) {
 	} else {
 		c.SawFunc(fi.Name())
 		checkASCIIPredicate(c, "R1", fi.Name(), fi.Info(), fi.Decl.Type, fi.Decl.Body, false)
+	}
+
+	// ---- R1g: every ASCII/non-ASCII decision on a character, anywhere in the server
+	c.Rule("R1g", "every comparison of a character of a string with a constant next to the ASCII boundary (126..129) separates exactly U+007F from U+0080", 3)
+	for _, pk := range p.ServerPkgs() {
+		info := pk.TypesInfo
+		eachFuncBody(pk, func(name string, fd *ast.FuncDecl, body *ast.BlockStmt) {
+			ast.Inspect(body, func(n ast.Node) bool {
+				rs, ok := n.(*ast.RangeStmt)
+				if !ok || rs.Value == nil {
+					return true
+				}
+				if tv, ok := info.Types[rs.X]; !ok || !isStringType(tv.Type) {
+					return true
+				}
+				ch := objOf(info, rs.Value)
+				ast.Inspect(rs.Body, func(x ast.Node) bool {
+					be, ok := x.(*ast.BinaryExpr)
+					if !ok {
+						return true
+					}
+					switch be.Op {
+					case token.GTR, token.GEQ, token.LSS, token.LEQ:
+					default:
+						return true
+					}
+					var other ast.Expr
+					if objOf(info, be.X) == ch {
+						other = be.Y
+					} else if objOf(info, be.Y) == ch {
+						other = be.X
+					} else {
+						return true
+					}
+					tv, ok := info.Types[other]
+					if !ok || tv.Value == nil {
+						return true
+					}
+					v, ok := constInt(tv)
+					if !ok || v < 126 || v > 129 {
+						return true
+					}
+					isChar := func(e ast.Expr) bool { return objOf(info, ast.Unparen(e)) == ch }
+					at := func(val int64) bool {
+						r, _ := evalExpr(info, be, func(e ast.Expr) (constant.Value, bool) {
+							if isChar(e) {
+								return constant.MakeInt64(val), true
+							}
+							return nil, false
+						})
+						return r != nil && constant.BoolVal(r)
+					}
+					lo, hi := at(0x7F), at(0x80)
+					c.Hold("R1g", pk.Types.Name()+"."+strings.TrimPrefix(name, ".")+":"+exprStr(be), be.Pos(), lo != hi,
+						"`"+exprStr(be)+"` has the same outcome for U+007F and U+0080: the first non-ASCII character is treated like ASCII (or the last ASCII one like non-ASCII)")
+					return true
+				})
+				return true
+			})
+		})
 	}
 
 	// ---- R2
@@ -74,6 +135,78 @@ func checkC17(c *Check) {
 	// ---- R4
 	c.Rule("R4", "every success value of the key functions has passed IDNA decoding (domain), NFC and lower-casing, NFC before case folding", 5)
 	c17Chains(c)
+
+	// ---- R6: ASCII/Unicode conversions are conversions, not key functions
+	c.Rule("R6", "ToASCII / ToUnicode change only the encoding of the domain (IDNA, plus NFC for the Unicode form): no case folding, trimming or key normalisation, local part untouched – otherwise the conversions do not round-trip", 2)
+	for _, name := range []string{"ToASCII", "ToUnicode"} {
+		fi := p.Func("framework/address", "", name)
+		if fi == nil {
+			c.Fail("R6", "address."+name, token.NoPos, "anchor unresolved")
+			continue
+		}
+		c.SawFunc(fi.Name())
+		f := p.SSAFunc(fi.Obj)
+		allowed := map[string]bool{}
+		required := ""
+		if name == "ToASCII" {
+			allowed["golang.org/x/net/idna.ToASCII"] = true
+			allowed["golang.org/x/net/idna.Profile.ToASCII"] = true
+			required = "ToASCII"
+		} else {
+			for k := range c17IDNA {
+				allowed[k] = true
+			}
+			for k := range c17NFC {
+				allowed[k] = true
+			}
+			required = "ToUnicode"
+		}
+		msg := ""
+		n := 0
+		for _, r := range returnsOf(f) {
+			if len(r.Results) != 2 || !isNilConst(r.Results[1]) {
+				continue
+			}
+			parts := concatParts(r.Results[0])
+			at := -1
+			for i, pt := range parts {
+				if cst, ok := pt.(*ssa.Const); ok && cst.Value != nil && cst.Value.ExactString() == `"@"` {
+					at = i
+				}
+			}
+			if at < 0 {
+				continue // postmaster-style address without a domain
+			}
+			n++
+			for _, lv := range parts[:at] {
+				for _, ch := range stringChains(lv, 12) {
+					if len(ch.Steps) != 0 {
+						msg = "the local part is transformed by " + describeChain(ch.Steps)
+					}
+				}
+			}
+			for _, dv := range parts[at+1:] {
+				for _, ch := range stringChains(dv, 12) {
+					sawReq := false
+					for _, st := range ch.Steps {
+						if !allowed[st.Callee] {
+							msg = "the domain passes through " + st.Callee[strings.LastIndex(st.Callee, "/")+1:] + ", which is not an encoding step (case folding / trimming / key normalisation changes the address: converting back does not return the original)"
+						}
+						if strings.HasSuffix(st.Callee, required) {
+							sawReq = true
+						}
+					}
+					if !sawReq {
+						msg = "the domain is not passed through idna." + required
+					}
+				}
+			}
+		}
+		if n == 0 && msg == "" {
+			msg = "undecided: no success return with a domain"
+		}
+		c.Hold("R6", "address."+name, fi.Decl.Pos(), msg == "", msg)
+	}
 
 	// ---- R5
 	c.Rule("R5", "Split returns addr[:i] and addr[i+1:] for one index i of a one-byte separator", 1)
